@@ -345,6 +345,13 @@ def gen_xss(rng, thorough):
         ({"allowed_calls": ["bleach.clean", "_"]}, "from markupsafe import Markup\nout = Markup(clean(x))\n", (M, H), "b704:cfg:not-allowed"),
         ({"allowed_calls": ["bleach.clean", "_"]}, "from markupsafe import Markup\nout = Markup(x)\n", (M, H), "b704:cfg:not-a-call"),
         ({"allowed_calls": ["bleach.clean"]}, "import bleach\nfrom markupsafe import Markup\nout = Markup(bleach.clean)\n", (M, H), "b704:cfg:not-a-call"),
+        # the allowed call must BE the argument, not merely occur somewhere inside it (seeded change C17-m6 searched the whole argument subtree)
+        ({"allowed_calls": ["bleach.clean"]}, "from bleach import clean\nfrom markupsafe import Markup\nout = Markup('<p>' + user_input + clean(other))\n", (M, H), "b704:cfg:allowed-nested"),
+        ({"allowed_calls": ["bleach.clean"]}, "from bleach import clean\nfrom markupsafe import Markup\nout = Markup(f'{clean(title)} {raw_body}')\n", (M, H), "b704:cfg:allowed-nested"),
+        ({"allowed_calls": ["bleach.clean"]}, "from bleach import clean\nfrom markupsafe import Markup\nout = Markup(render(raw_body, fallback=clean(title)))\n", (M, H), "b704:cfg:allowed-nested"),
+        ({"allowed_calls": ["bleach.clean"]}, "from bleach import clean\nfrom markupsafe import Markup\nout = Markup(raw_body if trusted else clean(raw_body))\n", (M, H), "b704:cfg:allowed-nested"),
+        ({"allowed_calls": ["bleach.clean"]}, "from bleach import clean\nfrom markupsafe import Markup\nout = Markup(clean(x).strip())\n", (M, H), "b704:cfg:allowed-nested"),
+        ({"allowed_calls": ["bleach.clean"]}, "from bleach import clean\nfrom markupsafe import Markup\nout = Markup([clean(x), y])\n", (M, H), "b704:cfg:allowed-nested"),
         ({}, "from markupsafe import Markup\nout = Markup(x)\nlit(x)\n", (M, H), "b704:cfg:empty-map"),
     ]
     for cfg, src, exp, tag in cfgs:
